@@ -8,10 +8,11 @@ sys.path.insert(0, os.path.join(ROOT, "tools"))
 import seeded
 args = sys.argv[1:]
 ROUND2 = "--round2" in args
-args = [a for a in args if a != "--round2"]
-NAMES = {"A": "C", "B": "D"} if ROUND2 else {"A": "A", "B": "B"}
+ROUND3 = "--round3" in args
+args = [a for a in args if a not in ("--round2", "--round3")]
+NAMES = {"A": "E", "B": "F"} if ROUND3 else ({"A": "C", "B": "D"} if ROUND2 else {"A": "A", "B": "B"})
 for pid in args:
-    src = ("/tmp/seed2_%s/out" if ROUND2 else "/tmp/seed_%s/out") % pid
+    src = ("/tmp/seed3_%s/out" if ROUND3 else "/tmp/seed2_%s/out" if ROUND2 else "/tmp/seed_%s/out") % pid
     notes = json.load(open(os.path.join(src, "notes.json"))) if os.path.exists(os.path.join(src, "notes.json")) else {}
     for v in "AB":
         if not os.path.exists(os.path.join(src, v + ".diff")):
